@@ -291,7 +291,7 @@ func rulePropCanon(w *World, r *Report) {
 
 // IDX-SORT (C01): writer and reader of the rule index order array elements with the same function.
 func ruleIdxSort(w *World, r *Report) {
-	r.Rule("IDX-SORT", "sibling agreement: PatternIndex.mod and PatternIndex.searchPairs expand an array value into pairs in the order given by the same function applied to the same (raw) elements; a writer that orders elements differently from the reader files the rule under a path the search never walks", 1)
+	r.Rule("IDX-SORT", "sibling agreement: PatternIndex.mod and PatternIndex.searchPairs expand an array value into pairs in the order given by the same function applied to the same (raw) elements (the reader may use a wrapper that returns that function's result whenever it succeeds, and orders the arrays that function refuses in some way of its own — patterns never contain those); a writer that orders elements differently from the reader files the rule under a path the search never walks", 1)
 	sortCalls := func(fn *ssa.Function) []string {
 		var out []string
 		allInstrs(fn, func(in ssa.Instruction) {
@@ -319,6 +319,11 @@ func ruleIdxSort(w *World, r *Report) {
 				raw = true
 			}
 			name := fname(f)
+			// a wrapper that hands its parameter to another ordering function and returns that function's result
+			// whenever it succeeds orders sortable arrays as that function does
+			if g := sortWrapperOf(f); g != nil {
+				name = fname(g)
+			}
 			if !raw {
 				name += "(on transformed elements)"
 			}
@@ -4552,4 +4557,92 @@ func rulePicastIdem(w *World, r *Report) {
 	if n == 0 {
 		r.exempt("PICAST-IDEM", key, w.Pos(pc.Pos()), "no constant or prefixed string result found: shape not recognised, not decided")
 	}
+}
+
+// sortWrapperOf: f(vs) calls g(vs) with its own parameter, g returns ([]interface{}, error), and f returns g's slice
+// on the edge on which g's error is nil.  Returns g.
+func sortWrapperOf(f *ssa.Function) *ssa.Function {
+	if f == nil || len(f.Blocks) == 0 || len(f.Params) != 1 {
+		return nil
+	}
+	var g *ssa.Function
+	allInstrs(f, func(in ssa.Instruction) {
+		c, ok := in.(*ssa.Call)
+		if !ok || g != nil {
+			return
+		}
+		callee := c.Common().StaticCallee()
+		if callee == nil || callee == f || len(c.Common().Args) != 1 || c.Common().Args[0] != ssa.Value(f.Params[0]) {
+			return
+		}
+		if errorResultIndex(callee.Signature) != 1 || callee.Signature.Results().Len() != 2 {
+			return
+		}
+		// some return hands back the call's first result, under a test of its error
+		allInstrs(f, func(x ssa.Instruction) {
+			ret, ok := x.(*ssa.Return)
+			if !ok || len(ret.Results) == 0 {
+				return
+			}
+			ex, ok := resolveSpill(ret.Results[0]).(*ssa.Extract)
+			if !ok || ex.Tuple != ssa.Value(c) || ex.Index != 0 {
+				return
+			}
+			if controlDependsOn(f, x, func(v ssa.Value) bool {
+				e, ok := v.(*ssa.Extract)
+				return ok && e.Tuple == ssa.Value(c) && e.Index == 1
+			}) {
+				g = callee
+			}
+		})
+	})
+	return g
+}
+
+// IDX-SORT-TOTAL (C01, C04): an array in an event is never a reason to evaluate no rule at all.
+func ruleIdxSortTotal(prop string) ruleFn {
+	return func(w *World, r *Report) {
+		r.Rule("IDX-SORT-TOTAL", "PatternIndex.searchPairs does not give up on an event array it cannot sort: no error return of searchPairs is control-dependent on the error of core.SortValues (which refuses arrays of mixed kinds and arrays with two or more maps or arrays).  The index returns a superset; an event whose array cannot be sorted can still match patterns with a variable, a single-member array pattern, or patterns on its other keys — and FindRules passes the error on, so *no* rule is evaluated for the event", 1)
+		sp := w.Method("core", "PatternIndex", "searchPairs")
+		sv := w.Func("core", "SortValues")
+		key := "fn=" + fname(sp)
+		n := 0
+		bad := ""
+		allInstrs(sp, func(in ssa.Instruction) {
+			c, ok := in.(*ssa.Call)
+			if !ok || c.Common().StaticCallee() != sv {
+				return
+			}
+			n++
+			isErr := func(v ssa.Value) bool {
+				e, ok := v.(*ssa.Extract)
+				return ok && e.Tuple == ssa.Value(c) && e.Index == 1
+			}
+			allInstrs(sp, func(x ssa.Instruction) {
+				if _, ok := x.(*ssa.Return); ok && !isSuccessReturnPS(x) && controlDependsOn(sp, x, isErr) && reachable(sp, in, x) {
+					// the refusal hangs on the error of the sort
+					if dependsOnErrOf(x.(*ssa.Return), c) {
+						bad = w.PosOf(x)
+					}
+				}
+			})
+		})
+		if bad != "" {
+			r.violation("IDX-SORT-TOTAL", key, bad, "searchPairs returns SortValues' error for an event array it cannot sort: the whole event fails and no rule is evaluated")
+			return
+		}
+		r.ok("IDX-SORT-TOTAL", key, w.Pos(sp.Pos()), itoa(n)+" direct call(s) of SortValues in searchPairs, none of whose errors ends the search")
+	}
+}
+
+// dependsOnErrOf: the error result of ret derives from the error result of call c.
+func dependsOnErrOf(ret *ssa.Return, c *ssa.Call) bool {
+	idx := errorResultIndex(ret.Parent().Signature)
+	if idx < 0 || idx >= len(ret.Results) {
+		return false
+	}
+	return dependsOn(ret.Results[idx], func(v ssa.Value) bool {
+		e, ok := v.(*ssa.Extract)
+		return ok && e.Tuple == ssa.Value(c) && e.Index == 1
+	})
 }
